@@ -257,8 +257,9 @@ def rules(rep, facts):
     from .shared import visit_table_model
     visit_table_model(rep, R13, facts)
     if 'parse' in feats or True:
-        from .rules_print import r15_printed_documents
+        from .rules_print import r15_printed_documents, r16_printed_pieces
         r15_printed_documents(rep, facts)
+        r16_printed_pieces(rep, facts)
     R8 = rep.rule('C06/R8', 'no order-breaking operation / unstable sort in the printers (the same structure always prints the same, valid header order)', floor=2)
     order_ops(rep, R8, facts)
 
